@@ -462,8 +462,8 @@ def c02_r4(ctx):
             # loop variable over the set the adds fill
             for fn in ast.walk(f.node):
                 if isinstance(fn, ast.For) and isinstance(fn.target, ast.Name) and fn.target.id == arg.id:
-                    it = norm.canon(fn.iter)
-                    src_ok = any(norm.canon(norm.receiver(ac)) == it for _, ac in adds)
+                    it = norm.root_name(fn.iter, f.node)
+                    src_ok = any(norm.root_name(norm.receiver(ac), f.node) == it for _, ac in adds)
         ctx.ob(f, src_ok, "delete_file is applied only to names collected in the guarded set",
                loc=ctx.nodeloc(f, c))
     # caller passes its own generation and the just-written list
@@ -478,10 +478,11 @@ def c02_r4(ctx):
         m1, p1 = bind_args(tocs[0], toc_init)
         m2, p2 = bind_args(cleans[0], f)
         if m1 and m2:
-            ok = (norm.canon(m1.get("generation")) == norm.canon(m2.get("gen")) == "self.generation"
-                  and norm.canon(m1.get("segments")) == norm.canon(m2.get("segments"))
-                  and norm.canon(m2.get("storage")) == "self.storage"
-                  and norm.canon(m1.get("schema")) == "self.schema")
+            cal = norm.aliases(ct.node)
+            ok = (norm.canon(m1.get("generation"), cal) == norm.canon(m2.get("gen"), cal) == "self.generation"
+                  and norm.canon(m1.get("segments"), cal) == norm.canon(m2.get("segments"), cal)
+                  and norm.canon(m2.get("storage"), cal) == "self.storage"
+                  and norm.canon(m1.get("schema"), cal) == "self.schema")
             detail = "TOC(%s) / clean_files(%s)" % (
                 ", ".join("%s=%s" % (k, norm.canon(v)) for k, v in m1.items()),
                 ", ".join("%s=%s" % (k, norm.canon(v)) for k, v in m2.items()))
@@ -489,7 +490,7 @@ def c02_r4(ctx):
            detail=detail)
     # toc.write targets the index storage and name
     writes = [c for c in find_calls(ct, "write")]
-    okw = len(writes) == 1 and [norm.canon(a) for a in writes[0].args] == ["self.storage", "self.indexname"]
+    okw = len(writes) == 1 and [norm.canon(a, norm.aliases(ct.node)) for a in writes[0].args] == ["self.storage", "self.indexname"]
     ctx.ob(ct, okw, "toc.write(self.storage, self.indexname)")
 
 
